@@ -133,3 +133,14 @@ Proof. vm_compute. reflexivity. Qed.
 Theorem C08_model_port_names_distinct : forall d g c, compile d g = Ok c -> NoDup (port_base_names d).
 Proof. exact compile_port_names_nodup. Qed.
 Print Assumptions C08_model_port_names_distinct.
+
+(* Part 6: what the role enables MEAN is decided by floo_pkg.sv: the generator emits
+   set_ports(ChimneyDefaultCfg, en_sbr, en_mgr) and the hardware model (Hw.ni_is_sbr / ni_is_mgr) reads the two
+   arguments as the enables.  Over the statements of that function, regenerated from hw/floo_pkg.sv on every run
+   (formal arguments renamed a1, a2, a3; fail-closed on control flow): it sets exactly these two fields from exactly
+   these two arguments and returns the record -- so an interface is enabled on a side iff the emitted flag says so. *)
+From FVGen Require Import RtlFacts.
+Theorem C08_set_ports_semantics :
+  set_ports_body = ["a1.EnSbrPort = a2"; "a1.EnMgrPort = a3"; "return a1"].
+Proof. reflexivity. Qed.
+Print Assumptions C08_set_ports_semantics.
